@@ -1,6 +1,7 @@
 package main
 
 import (
+	"verifharness/internal/gobuild"
 	"encoding/json"
 	"flag"
 	"fmt"
@@ -18,9 +19,13 @@ func runCaseDebug(args []string) error {
 	n := fs.Int("n", 60, "")
 	id := fs.String("id", "c0000", "")
 	what := fs.String("what", "src,dump", "")
+	hand := fs.Bool("hand", false, "select among the hand-written programs")
 	fs.Parse(args)
 	rng := rand.New(rand.NewSource(*seed))
 	cases := genCases(rng, *n, "c", synth.DefaultOptions())
+	if *hand {
+		cases = synth.HandWritten()
+	}
 	var sel []*synth.Case
 	for _, c := range cases {
 		if c.ID == *id {
@@ -44,6 +49,31 @@ func runCaseDebug(args []string) error {
 		}
 		if contains(*what, "facts") {
 			enc.Encode(a.FB)
+		}
+		if contains(*what, "compile") && a.Ana != nil {
+			gobuild.InstallPQ(l)
+			var files []gobuild.GenFile
+			for _, tg := range []string{"randdata", "gounions"} {
+				tt := runTarget(tg, a, l.Mod.Root)
+				for n, txt := range tt.Text {
+					files = append(files, gobuild.GenFile{Case: a.Case.ID, Name: n, Content: txt})
+				}
+			}
+			for _, p := range gobuild.Place(l, files) {
+				fmt.Println("place problem:", p.Stage, p.File, p.Msg)
+			}
+			probs, err := gobuild.Check(l, []string{a.Case.ID})
+			fmt.Println("check:", err)
+			for _, p := range probs {
+				fmt.Println("problem:", p.Stage, p.File, p.Msg)
+			}
+		}
+		if contains(*what, "targets") && a.Ana != nil {
+			fmt.Println("supportedEnv:", a.Env != nil && supportedEnv(a.Env))
+			for _, tg := range allTargets {
+				tt := runTarget(tg, a, l.Mod.Root)
+				fmt.Println("target", tg, tt.Out.Class, tt.Out.Msg)
+			}
 		}
 	}
 	return nil
